@@ -19,7 +19,12 @@ def parse_data(content, type_code):
 
     raw = np.frombuffer(content, dtype)
     if type_code == "C*8":
-        return raw["real"] + 1j * raw["imag"]
+        # copy the components instead of computing `real + 1j * imag`: the
+        # arithmetic loses the sign of zero and turns `x + inf j` into `nan + inf j`
+        data = np.empty(raw.shape, dtype="complex64")
+        data.real = raw["real"]
+        data.imag = raw["imag"]
+        return data
     return raw
 
 
